@@ -60,6 +60,14 @@ var c03DelimPool = []jetrun.Delims{
 }
 
 func genDelims(t *rapid.T) jetrun.Delims {
+	d := genDelimPair(t)
+	if (d.Left != "" || d.Right != "") && (d.CLeft != "" || d.CRight != "") {
+		d.CommentFirst = rapid.Bool().Draw(t, "commentOptionFirst")
+	}
+	return d
+}
+
+func genDelimPair(t *rapid.T) jetrun.Delims {
 	if rapid.IntRange(0, 9).Draw(t, "delimRandom") > 0 {
 		return rapid.SampledFrom(c03DelimPool).Draw(t, "delims")
 	}
